@@ -1482,6 +1482,12 @@ func ruleControlStateless(c *Ctx, r *Report) {
 				}
 				writes++
 				key := fmt.Sprintf("%s/%s", fname(f), fv.Name())
+				if isRecoverSig(f.Signature) {
+					// unwinding state: set and consumed by recovery handlers within one unwinding pass, during
+					// which nothing backtracks
+					r.ok(rule, key, c.at(in), desc, "written only from a recovery handler (func(error) *Promise): state of one unwinding pass, not of a solution", true)
+					return
+				}
 				if why, ok := allowed[fv.Name()]; ok {
 					r.ok(rule, key, c.at(in), desc, "confirmed accumulator: "+why, false)
 				} else {
@@ -1495,4 +1501,175 @@ func ruleControlStateless(c *Ctx, r *Report) {
 		}
 	}
 	r.analysed(rule, fmt.Sprintf("%d control constructs", n))
+}
+
+// ---------------------------------------------------------------------------
+// R-CATCH-SCOPE (C04; added with fix F17): "a catch/3 whose Goal has already exited does not intercept
+// errors raised by later goals". A promise frame stays on the stack after its thunk has run, so whatever
+// runs inside the protected thunk of the recovering frame - including the continuation, in CPS - is inside
+// the scope of the handler. Therefore, in catch/3:
+//   (1) inside the protected thunk the continuation k is never handed on as a value; it is only invoked,
+//       and only from the thunk of a nested recovering frame (the marker);
+//   (2) the marker's handler declines every error (returns nil on every path) and records the passage in a
+//       captured variable;
+//   (3) the handler of catch/3 reads that variable and declines (returns nil) on the branch where it is set.
+// Before fix F17 the goal was called with k itself: catch(true,_,write(caught)), throw(x) printed caught.
+
+func ruleCatchScope(c *Ctx, r *Report) {
+	const rule = "R-CATCH-SCOPE"
+	Catch := c.registeredFn("catch", 3)
+	ctor := c.fn("catch")
+	if Catch == nil || ctor == nil {
+		r.undecided(rule, "anchor", "-", "locate catch/3 and the recovering-frame constructor", "not found")
+		return
+	}
+	ks := paramsWhere(Catch, c.isContType)
+	if len(ks) != 1 {
+		r.undecided(rule, "anchor:k", c.Pos(Catch.Pos()), "locate the continuation parameter of catch/3", "not found")
+		return
+	}
+	k := ssa.Value(ks[0])
+	fromK := func(v ssa.Value) bool {
+		for _, l := range c.originSet(v) {
+			if l == k {
+				return true
+			}
+		}
+		return false
+	}
+	closureArg := func(v ssa.Value) *ssa.Function {
+		var found *ssa.Function
+		n := 0
+		for _, l := range c.originSet(v) {
+			n++
+			switch x := l.(type) {
+			case *ssa.MakeClosure:
+				found = x.Fn.(*ssa.Function)
+			case *ssa.Function:
+				found = x
+			default:
+				return nil
+			}
+		}
+		if n != 1 {
+			return nil
+		}
+		return found
+	}
+	// the outer recovering frame: the catch(...) call made directly in Catch
+	var outer *ssa.Call
+	eachInstr(Catch, func(in ssa.Instruction) {
+		if call, ok := in.(*ssa.Call); ok && call.Call.StaticCallee() == ctor && len(call.Call.Args) == 2 {
+			outer = call
+		}
+	})
+	key := fname(Catch)
+	if outer == nil {
+		r.bad(rule, key+"/frame", c.Pos(Catch.Pos()), "catch/3 installs a recovering frame", "no direct call of the constructor in catch/3")
+		return
+	}
+	handler, thunk := closureArg(outer.Call.Args[0]), closureArg(outer.Call.Args[1])
+	if handler == nil || thunk == nil {
+		r.bad(rule, key+"/frame", c.at(outer), "the handler and the protected thunk of catch/3 are closures of catch/3", "an argument of the constructor is not a function literal: the protected goal would be built outside the frame")
+		return
+	}
+	// markers: nested constructor calls inside the protected thunk
+	markerThunks := map[*ssa.Function]*ssa.Function{} // thunk -> handler
+	for _, f := range withAnon(thunk) {
+		eachInstr(f, func(in ssa.Instruction) {
+			if call, ok := in.(*ssa.Call); ok && call.Call.StaticCallee() == ctor && len(call.Call.Args) == 2 {
+				if t, h := closureArg(call.Call.Args[1]), closureArg(call.Call.Args[0]); t != nil && h != nil {
+					markerThunks[t] = h
+				}
+			}
+		})
+	}
+	// (1)
+	desc1 := "inside the protected thunk the continuation is only invoked, from the thunk of a nested marker frame"
+	var offending ssa.Instruction
+	why := ""
+	invoked := 0
+	for _, f := range withAnon(thunk) {
+		eachInstr(f, func(in ssa.Instruction) {
+			ci, ok := in.(ssa.CallInstruction)
+			if !ok {
+				return
+			}
+			cc := ci.Common()
+			for _, a := range cc.Args {
+				if c.isContType(a.Type()) && fromK(a) {
+					offending, why = in, "the continuation is handed to "+calleeName(cc)+" inside the recovering frame: it runs within the scope of the handler, so errors raised after the goal has exited are intercepted"
+				}
+			}
+			if !cc.IsInvoke() && cc.StaticCallee() == nil && fromK(cc.Value) {
+				invoked++
+				if markerThunks[f] == nil {
+					offending, why = in, "the continuation is invoked inside the recovering frame without a marker frame of its own"
+				}
+			}
+		})
+	}
+	switch {
+	case offending != nil:
+		r.bad(rule, key+"/continuation-under-marker", c.at(offending), desc1, why)
+	case invoked == 0:
+		r.bad(rule, key+"/continuation-under-marker", c.at(outer), desc1, "the continuation is never invoked after the goal")
+	default:
+		r.ok(rule, key+"/continuation-under-marker", c.at(outer), desc1, fmt.Sprintf("%d invocation(s), each in the thunk of a nested recovering frame", invoked), true)
+	}
+	// (2) and (3)
+	var flags []*ssa.Alloc
+	for _, h := range markerThunks {
+		declines := true
+		eachInstr(h, func(in ssa.Instruction) {
+			switch x := in.(type) {
+			case *ssa.Return:
+				for _, res := range x.Results {
+					if k, ok := res.(*ssa.Const); !ok || k.Value != nil {
+						declines = false
+					}
+				}
+			case *ssa.Store:
+				if cell := c.varCell(x.Addr); cell != nil {
+					flags = append(flags, cell)
+				}
+			}
+		})
+		if declines && len(flags) > 0 {
+			r.ok(rule, key+"/marker-declines", c.Pos(h.Pos()), "the marker's handler declines every error and records the passage", "returns nil on every path; writes "+flags[0].Comment, true)
+		} else {
+			r.bad(rule, key+"/marker-declines", c.Pos(h.Pos()), "the marker's handler declines every error and records the passage", "the marker handles errors itself or records nothing")
+		}
+	}
+	if len(markerThunks) > 0 {
+		consumed := false
+		eachInstr(handler, func(in ssa.Instruction) {
+			ret, ok := in.(*ssa.Return)
+			if !ok || len(ret.Results) != 1 {
+				return
+			}
+			if k, ok := ret.Results[0].(*ssa.Const); !ok || k.Value != nil {
+				return
+			}
+			for f := range c.factsAt(in.Block()) {
+				if u, ok := f.cond.(*ssa.UnOp); ok && u.Op == token.MUL && f.pol {
+					for _, fl := range flags {
+						if c.varCell(u.X) == fl {
+							consumed = true
+						}
+					}
+				}
+			}
+		})
+		if consumed {
+			r.ok(rule, key+"/handler-lets-pass", c.Pos(handler.Pos()), "the handler of catch/3 declines an error that came through the marker", "returns nil under the fact that the marker's variable is set", true)
+		} else {
+			r.bad(rule, key+"/handler-lets-pass", c.Pos(handler.Pos()), "the handler of catch/3 declines an error that came through the marker", "no return of nil under the marker's variable: errors raised after the goal has exited are still handled here")
+		}
+	}
+	r.analysed(rule, fname(Catch), fmt.Sprintf("%d marker frame(s)", len(markerThunks)))
+}
+
+func isRecoverSig(sig *types.Signature) bool {
+	return sig.Recv() == nil && sig.Params().Len() == 1 && sig.Results().Len() == 1 && isErrorType(sig.Params().At(0).Type()) && isNamedIn(deref(sig.Results().At(0).Type()), enginePkgPath, "Promise")
 }
